@@ -71,7 +71,13 @@ def main():
             os.rename(os.path.join(wt, rel), os.path.join(wt, rel) + ".off")
         ok = True
         for mod in (".", "schema"):
-            rc, out = sh(["go", "test", "-vet=off", "-count=1", "./..."], cwd=os.path.join(wt, mod), timeout=1800)
+            # pkg/cdi's own TestDefaultCacheRefresh sleeps 10 ms and then expects the watcher to have caught up:
+            # on a loaded machine it fails now and then, with or without any change; retry before blaming the seed
+            for attempt in range(3):
+                rc, out = sh(["go", "test", "-vet=off", "-count=1", "./..."], cwd=os.path.join(wt, mod), timeout=1800)
+                if rc == 0:
+                    break
+                meta["steps"].setdefault("suite_retries", []).append(out[-300:])
             if rc != 0:
                 ok = False
                 suite.append(out[-800:])
